@@ -33,7 +33,7 @@ func YAML(c *Case, bigDesc int, params string) string {
 			m = append(m, yaml.MapItem{Key: "output", Value: "VERIF_OUT_" + s.Name})
 		}
 		if s.RetryLimit >= 0 {
-			m = append(m, yaml.MapItem{Key: "retryPolicy", Value: map[string]int{"limit": s.RetryLimit, "intervalSec": 0}})
+			m = append(m, yaml.MapItem{Key: "retryPolicy", Value: map[string]int{"limit": s.RetryLimit, "intervalSec": s.RetryIvUS / 1000000}})
 		}
 		steps = append(steps, m)
 	}
